@@ -723,14 +723,42 @@ def big_cases(r, thorough):
 FIXED_WIDTH = "ynqiuxtd"
 
 
-def model_cheap(op, ty, bo, ntoks):
-    """whether the extracted model can run this line in reasonable time: it appends to lists and recomputes lengths, so
-    element-wise paths over thousands of elements take minutes (8192 u64: 3 minutes), while the memcpy path of the
-    native byte order, raw validation and the specification encoder are linear"""
-    if ntoks < 3000 or op in ("VR", "SE"):
+def model_cheap(op, bo, toks):
+    """whether the extracted model can run this line in reasonable time. It appends to lists and recomputes lengths, so
+    element-wise work over thousands of elements takes minutes (8192 u64 marshalled one by one: 3 minutes; raw validation
+    of 4096 structs: 80 s), while the memcpy path of the native byte order, raw validation of fixed-width arrays (one
+    length check), long strings and the specification encoder are linear. toks = the value (for a decoder line: the value
+    the bytes were made from)."""
+    if len(toks) < 3000 or op == "SE":
         return True
-    t = parse_ext(ty) if ty else None
-    return bool(t) and bo == "le" and op in ("MT", "RT", "UT") and t[0] == "a" and t[1][0] == "b" and t[1][1] in FIXED_WIDTH
+    tree, _ = parse_tokens(list(toks), 0)
+    bad = [False]
+
+    def walk(t):
+        k = t[0]
+        if k == "a":
+            if len(t[2]) > 1000:
+                fixed = t[1] in FIXED_WIDTH
+                if op == "VR":
+                    bad[0] = bad[0] or not fixed
+                elif op in ("MT", "RT", "UT"):
+                    bad[0] = bad[0] or not (fixed and bo == "le")
+                else:
+                    bad[0] = True
+            for x in t[2]:
+                walk(x)
+        elif k == "e":
+            if len(t[3]) > 1000:
+                bad[0] = True
+            for _, x in t[3]:
+                walk(x)
+        elif k == "r":
+            for x in t[1]:
+                walk(x)
+        elif k == "v":
+            walk(t[2])
+    walk(tree)
+    return not bad[0]
 
 
 def run_each(exe, lines, robust=False, chunk=1, timeout=1800):
@@ -742,11 +770,18 @@ def run_each(exe, lines, robust=False, chunk=1, timeout=1800):
     chunks = [lines[i:i + chunk] for i in range(0, len(lines), chunk)]
 
     def one(ch):
-        if robust:
-            good, o, e = vlib.run_lines_robust(exe, [], ch, timeout)
-            return good and len(o) == len(ch), o, e
-        rc, o, e = vlib.run_lines(exe, [], ch, timeout)
-        return rc == 0 and len(o) == len(ch), o, e
+        import time
+        t0 = time.time()
+        try:
+            if robust:
+                good, o, e = vlib.run_lines_robust(exe, [], ch, timeout)
+                return good and len(o) == len(ch), o, e
+            rc, o, e = vlib.run_lines(exe, [], ch, timeout)
+            return rc == 0 and len(o) == len(ch), o, e
+        finally:
+            if os.environ.get("WIREGEN_TIMING") and time.time() - t0 > 2:
+                import sys
+                sys.stderr.write("run_each %.1fs %s\n" % (time.time() - t0, " | ".join(l[:70] for l in ch)))
     outs, errs, ok = [], [], True
     with cf.ThreadPoolExecutor(min(len(chunks), vlib.NPROC)) as ex:
         for good, o, e in ex.map(one, chunks):
@@ -755,3 +790,120 @@ def run_each(exe, lines, robust=False, chunk=1, timeout=1800):
                 errs.append(e[-1500:])
             outs += o
     return ok, outs, "\n".join(errs)
+
+
+# ----------------------------------------------------------------------------- inconsistent Param trees (C02)
+def tree_sig(t):
+    """the signature params::Param::sig() computes for a tree: containers answer with their DECLARED element types"""
+    k = t[0]
+    if k == "b":
+        return t[1]
+    if k == "a":
+        return "a" + t[1]
+    if k == "r":
+        return "(" + "".join(tree_sig(x) for x in t[1]) + ")"
+    if k == "e":
+        return "a{" + t[1] + t[2] + "}"
+    return "v"
+
+
+def tree_consistent(t, depth=0):
+    """the property's side condition for the dynamic API, written from its text (not from the code): every array element
+    has the declared element type, every dict key / value the declared types, a variant's signature is the type of its
+    value, no struct is empty, and no container is nested in 64 others"""
+    k = t[0]
+    if k == "b":
+        return True
+    if depth >= 64:
+        return False
+    if k == "a":
+        return all(tree_sig(x) == t[1] and tree_consistent(x, depth + 1) for x in t[2])
+    if k == "r":
+        return len(t[1]) > 0 and all(tree_consistent(x, depth + 1) for x in t[1])
+    if k == "e":
+        return all(a[0] == "b" and a[1] == t[1] and tree_sig(b) == t[2] and tree_consistent(b, depth + 1) for a, b in t[3])
+    return tree_sig(t[2]) == t[1] and tree_consistent(t[2], depth + 1)
+
+
+def _wrap(r, inner, levels):
+    """nest a token list in `levels` containers that need no declared element type of unbounded depth: one-field structs and
+    variants (an array of arrays 33 deep has no valid signature to declare)"""
+    toks = list(inner)
+    sig = None
+    for _ in range(levels):
+        if r.random() < 0.5:
+            tree, _ = parse_tokens(toks, 0)
+            s = tree_sig(tree)
+            # a variant's declared signature must itself be a valid signature: struct nesting is limited to 32 there
+            if s.count("(") < 30 and len(s) < 200 and "()" not in s:
+                toks = ["v", s] + toks
+                continue
+        toks = ["r", "1"] + toks
+    return toks
+
+
+def inconsistent_trees(r, n):
+    """[(class, tokens)]: Param trees the typed generators never build. Most are inconsistent (expected: refused, nothing
+    written, no panic); the `limit` classes are consistent trees exactly at the nesting limit (expected: accepted)."""
+    leaf = {"y": ["y", "7"], "u": ["u", "9"], "s": ["s", "616263"], "t": ["t", "5"], "b": ["b", "1"], "o": ["o", "2f61"], "g": ["g", "79"],
+            "q": ["q", "3"], "d": ["d", "0"], "x": ["x", "1"]}
+    seeds = []
+    # array: declared element type differs from (one of) the elements
+    for decl, el in (("u", "s"), ("s", "u"), ("y", "u"), ("t", "x"), ("o", "s"), ("s", "g"), ("u", "b"), ("q", "n" if "n" in leaf else "y")):
+        seeds.append(("array-element-type", ["a", decl, "1"] + leaf[el]))
+        seeds.append(("array-element-type", ["a", decl, "3"] + leaf[decl] + leaf[decl] + leaf[el]))
+        seeds.append(("array-element-type", ["a", decl, "2"] + leaf[el] + leaf[decl]))
+    seeds += [("array-element-type", ["a", "(yu)", "1", "r", "2", "y", "1", "s", "61"]),
+              ("array-element-type", ["a", "(yu)", "1", "r", "3", "y", "1", "u", "2", "y", "3"]),
+              ("array-element-type", ["a", "(yu)", "2", "r", "2", "y", "1", "u", "2", "r", "1", "y", "1"]),
+              ("array-element-type", ["a", "ay", "1", "a", "u", "0"]),
+              ("array-element-type", ["a", "ay", "2", "a", "y", "1", "y", "1", "a", "u", "1", "u", "1"]),
+              ("array-element-type", ["a", "v", "1", "u", "1"]),
+              ("array-element-type", ["a", "u", "1", "v", "u", "u", "1"]),
+              ("array-element-type", ["a", "a{sv}", "1", "e", "s", "u", "0"]),
+              ("array-element-type", ["a", "s", "1", "a", "s", "0"])]
+    # dict: key or value of another type than declared
+    seeds += [("dict-key-type", ["e", "s", "u", "1", "y", "1", "u", "5"]),
+              ("dict-key-type", ["e", "u", "s", "2", "u", "1", "s", "61", "i", "2", "s", "62"]),
+              ("dict-key-type", ["e", "s", "s", "1", "o", "2f61", "s", "61"]),
+              ("dict-value-type", ["e", "s", "u", "1", "s", "61", "s", "62"]),
+              ("dict-value-type", ["e", "s", "v", "1", "s", "61", "u", "1"]),
+              ("dict-value-type", ["e", "y", "ay", "1", "y", "1", "a", "u", "0"]),
+              ("dict-value-type", ["e", "s", "(yu)", "1", "s", "61", "r", "2", "y", "1", "s", "61"]),
+              ("dict-value-type", ["e", "s", "u", "2", "s", "61", "u", "1", "s", "62", "t", "1"])]
+    # variant: declared signature is not the type of the value
+    seeds += [("variant-signature", ["v", "u", "s", "616263"]), ("variant-signature", ["v", "s", "u", "7"]),
+              ("variant-signature", ["v", "u", "i", "7"]), ("variant-signature", ["v", "t", "d", "7"]),
+              ("variant-signature", ["v", "(yu)", "r", "2", "y", "1", "s", "61"]), ("variant-signature", ["v", "ay", "a", "u", "0"]),
+              ("variant-signature", ["v", "v", "u", "1"]), ("variant-signature", ["v", "u", "v", "u", "u", "1"]),
+              ("variant-signature", ["v", "a{sv}", "e", "s", "u", "0"]), ("variant-signature", ["v", "y", "r", "1", "y", "1"]),
+              ("variant-signature", ["v", "(y)", "y", "1"]), ("variant-signature", ["v", "s", "o", "2f61"]),
+              ("variant-signature", ["v", "(yy)", "r", "1", "y", "1"])]
+    # struct without fields
+    seeds += [("empty-struct", ["r", "0"]), ("empty-struct", ["r", "2", "y", "1", "r", "0"]), ("empty-struct", ["r", "2", "r", "0", "y", "1"]),
+              ("empty-struct", ["a", "(y)", "1", "r", "0"]), ("empty-struct", ["a", "(y)", "2", "r", "1", "y", "1", "r", "0"]),
+              ("empty-struct", ["v", "(y)", "r", "0"]), ("empty-struct", ["e", "s", "(y)", "1", "s", "61", "r", "0"]),
+              ("empty-struct", ["r", "1", "r", "1", "r", "1", "r", "0"]), ("empty-struct", ["v", "v", "v", "(y)", "r", "0"]),
+              ("empty-struct", ["a", "v", "1", "v", "(y)", "r", "0"])]
+    out = []
+    for cls, toks in seeds:
+        out.append((cls, toks))
+    # the same faults somewhere inside a bigger consistent tree, at a random depth
+    for _ in range(n):
+        cls, toks = r.choice(seeds)
+        d = r.choice([1, 2, 3, 5, 10, 30, 60])
+        where = r.random()
+        if where < 0.3:
+            toks = ["r", "3", "y", "1"] + toks + ["s", "7a"]
+        elif where < 0.5:
+            tree, _ = parse_tokens(toks, 0)
+            toks = ["e", "s", tree_sig(tree) if tree_sig(tree) != "()" and "()" not in tree_sig(tree) else "(y)", "1", "s", "6b"] + toks
+        out.append((cls + "/nested", _wrap(r, toks, d)))
+    # nesting: consistent trees with exactly 64 containers (accepted) and 65..70 (refused)
+    for levels in [63, 64, 65, 66, 70, 64, 65]:
+        inner = r.choice([["y", "1"], ["s", "616263"], ["a", "y", "2", "y", "1", "y", "2"], ["r", "2", "y", "1", "t", "2"], ["e", "s", "u", "1", "s", "61", "u", "1"]])
+        tree, _ = parse_tokens(inner, 0)
+        own = 0 if tree[0] == "b" else 1
+        toks = _wrap(r, inner, levels - own)
+        out.append(("nesting=%d" % levels if levels <= 64 else "nesting>64", toks))
+    return out
